@@ -10,7 +10,10 @@ From MJ Require Import Common.Base Lang.Syntax Lang.Interp Lang.Codec C03.Runner
 Definition site_of (z : Z) : site :=
   match z with
   | 0 => PrintSite | 1 => IterSite | 2 => TruthSite | 3 => AttrSite | 4 => ItemSite
-  | 5 => IsDefinedSite | 6 => IsUndefinedSite | _ => DefaultSite
+  | 5 => IsDefinedSite | 6 => IsUndefinedSite | 7 => DefaultSite
+  | 8 => MapMissingAttrSite | 9 => MapMissingItemSite | 10 => MapMissingIterSite | 11 => MapMissingChainSite
+  | 12 => MapKeySite | 13 => MapIterSite | 14 => MapInSite
+  | _ => DefaultSite
   end.
 
 Definition enc_cell (c : cell) : list Z :=
